@@ -191,6 +191,9 @@ structure WF (s : State τ) : Prop where
     (∀ n ∈ o.rets, n.value = none) ∨ (∀ n ∈ o.rets, n.value.isSome = true)
   /-- Parameter operators never memoise -/
   param_none : ∀ (k : Nat) (o : OpInfo τ), s.ops[k]? = some o → o.kind.isParam = true → ∀ n ∈ o.rets, n.value = none
+  /-- an evaluated operator's non-parameter arguments are evaluated -/
+  closed : ∀ (k : Nat) (o : OpInfo τ), s.ops[k]? = some o → s.evaluated k →
+    ∀ b ∈ o.args, s.isParam b.oid = false → s.evaluated b.oid
   /-- the log lists exactly the evaluated operators -/
   log_iff : ∀ k, k ∈ s.log ↔ s.evaluated k
   log_nodup : s.log.Nodup
@@ -336,6 +339,12 @@ theorem SameVals.wf {s s' : State τ} (h : SameVals s s') (w : WF s) : WF s' := 
     obtain ⟨e1, -, -, hv, -⟩ := strip_eq_iff he
     obtain ⟨n, hn1, e⟩ := map_value_mem hv hn'
     rw [← e]; exact w.param_none k o ho (e1 ▸ hp) n hn1
+  · intro k o' ho' hev b hb hp
+    obtain ⟨o, ho, he⟩ := back ho'
+    rw [(strip_eq_iff he).2.1] at hb
+    rw [h.isParam] at hp
+    rw [h.evaluated] at hev ⊢
+    exact w.closed k o ho hev b hb hp
   · intro k; rw [h.log, h.evaluated]; exact w.log_iff k
   · rw [h.log]; exact w.log_nodup
   · rw [h.log, h.rndPos, h.isRnd]; exact w.rnd_count
@@ -372,9 +381,10 @@ theorem OpGrow.length {o o' : OpInfo τ} (h : OpGrow o o') : o'.rets.length = o.
 
 /-- the equation the values of a deterministic operator satisfy right after its evaluation -/
 def LocalEq (s : State τ) (k : Nat) : Prop :=
-  ∀ (o : OpInfo τ) (sem : OpSem τ), s.ops[k]? = some o → o.kind = .op sem →
-    ∃ xs ys, o.args.mapM s.valueOf? = some xs ∧ sem.fwd xs = some ys ∧
-      ∀ (i : Nat) (n : NodeInfo τ), o.rets[i]? = some n → n.value = ys[i]?
+  ∀ (o : OpInfo τ), s.ops[k]? = some o →
+    ∃ xs, o.args.mapM s.valueOf? = some xs ∧
+      ∀ (sem : OpSem τ), o.kind = .op sem → ∃ ys, sem.fwd xs = some ys ∧
+        ∀ (i : Nat) (n : NodeInfo τ), o.rets[i]? = some n → n.value = ys[i]?
 
 structure Ext (s s' : State τ) (l : List Nat) : Prop where
   params : s'.params = s.params
@@ -508,10 +518,10 @@ theorem Ext.refl (s : State τ) : Ext s s [] := Ext.refl' rfl rfl rfl rfl rfl
 
 theorem LocalEq.mono {s s' : State τ} {l : List Nat} (h : Ext s s' l) {k : Nat} (hk : k ∉ l)
     (he : LocalEq s k) : LocalEq s' k := by
-  intro o sem ho hkind
+  intro o ho
   rw [h.same k hk] at ho
-  obtain ⟨xs, ys, h1, h2, h3⟩ := he o sem ho hkind
-  exact ⟨xs, ys, mapM_mono (fun a _ b hb => h.valueOf_mono hb) h1, h2, h3⟩
+  obtain ⟨xs, h1, h2⟩ := he o ho
+  exact ⟨xs, mapM_mono (fun a _ b hb => h.valueOf_mono hb) h1, h2⟩
 
 theorem Ext.disjoint {s s1 s2 : State τ} {l1 l2 : List Nat} (h1 : Ext s s1 l1) (h2 : Ext s1 s2 l2)
     {k : Nat} (hk1 : k ∈ l1) (hk2 : k ∈ l2) : False := by
@@ -547,6 +557,45 @@ theorem Ext.trans {s s1 s2 : State τ} {l1 l2 : List Nat} (h1 : Ext s s1 l1) (h2
     · exact LocalEq.mono h2 (fun h => hdis k hk h) (h1.loc k hk)
     · exact h2.loc k hk
 
+theorem evaluated_of_valueOf? {s : State τ} {b : Addr} {v : τ} (hv : s.valueOf? b = some v)
+    (hp : s.isParam b.oid = false) : s.evaluated b.oid := by
+  unfold State.valueOf? at hv
+  unfold State.isParam at hp
+  cases ho : s.ops[b.oid]? with
+  | none => simp [ho] at hv
+  | some o =>
+    simp only [ho] at hv hp
+    cases hk : o.kind with
+    | param p => simp [hk, Kind.isParam] at hp
+    | rnd =>
+      simp only [hk] at hv
+      cases hn : o.rets[b.vid]? with
+      | none => simp [hn] at hv
+      | some n => simp only [hn] at hv; exact ⟨o, ho, n, List.mem_of_getElem? hn, by simp [hv]⟩
+    | op sem =>
+      simp only [hk] at hv
+      cases hn : o.rets[b.vid]? with
+      | none => simp [hn] at hv
+      | some n => simp only [hn] at hv; exact ⟨o, ho, n, List.mem_of_getElem? hn, by simp [hv]⟩
+
+theorem mapM_some_mem {α β} {f : α → Option β} {l : List α} {ys : List β} (h : l.mapM f = some ys) :
+    ∀ a ∈ l, ∃ b, f a = some b := by
+  induction l generalizing ys with
+  | nil => simp
+  | cons a rest ih =>
+    simp only [List.mapM_cons, Option.bind_eq_bind] at h
+    cases h1 : f a with
+    | none => simp [h1] at h
+    | some b =>
+      simp only [h1, Option.bind_some] at h
+      cases h2 : rest.mapM f with
+      | none => simp [h2] at h
+      | some bs =>
+        intro a' ha'
+        rcases List.mem_cons.1 ha' with rfl | ha'
+        · exact ⟨b, h1⟩
+        · exact ih h2 a' ha'
+
 theorem Ext.wf {s s' : State τ} {l : List Nat} (h : Ext s s' l) (w : WF s) : WF s' := by
   have back : ∀ {k : Nat} {o' : OpInfo τ}, s'.ops[k]? = some o' →
       ∃ o, s.ops[k]? = some o ∧ OpGrow o o' := by
@@ -575,6 +624,17 @@ theorem Ext.wf {s s' : State τ} {l : List Nat} (h : Ext s s' l) (w : WF s) : WF
       rw [e2] at ho'; cases ho'
       rw [st.kind, st.nonparam] at hp; cases hp
     · rw [h.same k hk] at ho'; exact w.param_none k o' ho' hp
+  · intro k o' ho' hev b hb hp
+    by_cases hk : k ∈ l
+    · obtain ⟨xs, hxs, -⟩ := h.loc k hk o' ho'
+      obtain ⟨v, hv⟩ := mapM_some_mem hxs b hb
+      exact evaluated_of_valueOf? hv hp
+    · rw [h.same k hk] at ho'
+      rw [h.isParam] at hp
+      rw [h.evaluated] at hev ⊢
+      rcases hev with hev | hev
+      · exact .inl (w.closed k o' ho' hev b hb hp)
+      · exact absurd hev hk
   · intro k; rw [h.log, h.evaluated, List.mem_append, w.log_iff]
   · rw [h.log, List.nodup_append]
     refine ⟨w.log_nodup, h.nodup, fun a ha b hb hab => ?_⟩
@@ -653,7 +713,7 @@ theorem Ext.step {s1 sA : State τ} {k : Nat} {o : OpInfo τ} {ys : List τ}
     (hnp : o.kind.isParam = false) (hne : o.rets ≠ []) (hbefore : ∀ n ∈ o.rets, n.value = none)
     (hlen : o.rets.length ≤ ys.length)
     (hargs : ∀ b ∈ o.args, b.oid ≠ k)
-    (hloc : ∀ sem, o.kind = .op sem → ∃ xs, o.args.mapM s1.valueOf? = some xs ∧ sem.fwd xs = some ys) :
+    (hloc : ∃ xs, o.args.mapM s1.valueOf? = some xs ∧ ∀ sem, o.kind = .op sem → sem.fwd xs = some ys) :
     Ext s1 (sA.storeValues k ys) [k] := by
   have hoA : sA.ops[k]? = some o := by rw [hops]; exact ho
   have hklt : k < s1.ops.length := (List.getElem?_eq_some_iff.1 ho).1
@@ -686,12 +746,12 @@ theorem Ext.step {s1 sA : State τ} {k : Nat} {o : OpInfo τ} {ys : List τ}
       rw [this, List.getElem?_eq_getElem hi']; rfl
   · intro j hj
     simp only [List.mem_singleton] at hj; subst hj
-    intro o' sem ho' hkind
+    intro o' ho'
     change (sA.ops.set j _)[j]? = _ at ho'
     rw [hget, if_pos rfl] at ho'
     cases ho'
-    obtain ⟨xs, hx1, hx2⟩ := hloc sem hkind
-    refine ⟨xs, ys, ?_, hx2, fun i n hi => storeRets_value o.rets ys hlen i n hi⟩
+    obtain ⟨xs, hx1, hx2⟩ := hloc
+    refine ⟨xs, ?_, fun sem hkind => ⟨ys, hx2 sem hkind, fun i n hi => storeRets_value o.rets ys hlen i n hi⟩⟩
     rw [← hx1]
     apply mapM_congr
     intro b hb
@@ -791,5 +851,355 @@ theorem forwardArgs_spec (ev : State τ → Addr → State τ × Except Err τ) 
               · rw [← p1.ext.anc] at hk
                 rw [← p1.ext.isParam] at hp
                 exact hd2 b' hb' k hk hp
+
+theorem validAddr_iff {s : State τ} {a : Addr} :
+    s.validAddr a = true ↔ ∃ o, s.ops[a.oid]? = some o ∧ a.vid < o.rets.length := by
+  unfold State.validAddr
+  cases s.ops[a.oid]? <;> simp
+
+/-- the part of `forwardRec` that runs the operator's own forward once its arguments are there -/
+def evalSelf (kind : Kind τ) (n : NodeInfo τ) (a : Addr) (s1 : State τ) (xs : List τ) :
+    State τ × Except Err τ :=
+  let faulty := match kind with
+    | .op sem => sem.faulty
+    | .rnd => true
+    | .param _ => false
+  match (if faulty then s1.failIn else none) with
+  | some 0 => ({ s1 with failIn := none }, .error .error)
+  | fi =>
+    let s1 := if faulty then { s1 with failIn := fi.map (· - 1) } else s1
+    match kind with
+    | .param _ => (s1, .error .crash)
+    | .rnd =>
+      let v := s1.sample s1.rndPos n.size
+      let s2 := { s1 with rndPos := s1.rndPos + 1, log := s1.log ++ [a.oid] }
+      (s2.storeValues a.oid [v], .ok v)
+    | .op sem =>
+      match sem.fwd xs with
+      | none => (s1, .error .error)
+      | some ys =>
+        let s2 := ({ s1 with log := s1.log ++ [a.oid] }).storeValues a.oid ys
+        match ys[a.vid]? with
+        | some v => (s2, .ok v)
+        | none => (s2, .error .crash)
+
+theorem forwardRec_succ (T : TOps τ) (fuel : Nat) (s : State τ) (a : Addr) :
+    forwardRec T (fuel + 1) s a =
+      match s.ops[a.oid]? with
+      | none => (s, .error .crash)
+      | some o =>
+        match o.kind with
+        | .param p => if a.vid = 0 then (s, .ok (s.params.value p)) else (s, .error .crash)
+        | kind =>
+          match o.rets[a.vid]? with
+          | none => (s, .error .crash)
+          | some n =>
+            match n.value with
+            | some v => (s, .ok v)
+            | none =>
+              match forwardArgsWith (forwardRec T fuel) s o.args with
+              | (s1, .error e) => (s1, .error e)
+              | (s1, .ok xs) => evalSelf kind n a s1 xs := by
+  rfl
+
+theorem valueOf?_storeValues {sA : State τ} {a : Addr} {o : OpInfo τ} {n : NodeInfo τ} {ys : List τ} {v : τ}
+    (ho : sA.ops[a.oid]? = some o) (hnp : o.kind.isParam = false) (hn : o.rets[a.vid]? = some n)
+    (hv : ys[a.vid]? = some v) : (sA.storeValues a.oid ys).valueOf? a = some v := by
+  rw [storeValues_of_some ys ho]
+  unfold State.valueOf?
+  have hlt := (List.getElem?_eq_some_iff.1 ho).1
+  simp only [List.getElem?_set, hlt, if_true]
+  cases hk : o.kind with
+  | param p => simp [hk, Kind.isParam] at hnp
+  | rnd => simp [storeRets_getElem?, hn, hv]
+  | op sem => simp [storeRets_getElem?, hn, hv]
+
+theorem evaluated_storeValues {sA : State τ} {a : Addr} {o : OpInfo τ} {n : NodeInfo τ} {ys : List τ} {v : τ}
+    (ho : sA.ops[a.oid]? = some o) (hn : o.rets[a.vid]? = some n)
+    (hv : ys[a.vid]? = some v) : (sA.storeValues a.oid ys).evaluated a.oid := by
+  rw [storeValues_of_some ys ho]
+  unfold State.evaluated
+  have hlt := (List.getElem?_eq_some_iff.1 ho).1
+  simp only [List.getElem?_set, hlt, if_true]
+  refine ⟨_, rfl, { n with value := some v }, ?_, rfl⟩
+  apply List.mem_of_getElem? (i := a.vid)
+  simp [storeRets_getElem?, hn, hv]
+
+theorem evalSelf_spec {s1 : State τ} {a : Addr} {o : OpInfo τ} {n : NodeInfo τ} {xs : List τ}
+    (w : WF s1) (ho : s1.ops[a.oid]? = some o) (hn : o.rets[a.vid]? = some n) (hnv : n.value = none)
+    (hnp : o.kind.isParam = false) (hxs : o.args.mapM s1.valueOf? = some xs) :
+    ∃ l, (∀ k ∈ l, k = a.oid) ∧ Ext s1 (evalSelf o.kind n a s1 xs).1 l ∧
+      (evalSelf o.kind n a s1 xs).2 ≠ .error .crash ∧
+      ∀ v, (evalSelf o.kind n a s1 xs).2 = .ok v →
+        (evalSelf o.kind n a s1 xs).1.valueOf? a = some v ∧ (evalSelf o.kind n a s1 xs).1.evaluated a.oid := by
+  have hne : o.rets ≠ [] := by intro h; simp [h] at hn
+  have hbefore : ∀ m ∈ o.rets, m.value = none := by
+    rcases w.all_or_none _ o ho with h | h
+    · exact h
+    · have := h n (List.mem_of_getElem? hn); simp [hnv] at this
+  have hargs : ∀ b ∈ o.args, b.oid ≠ a.oid := fun b hb => Nat.ne_of_lt (w.args_lt _ o ho b hb).1
+  have kok := w.kind_ok _ o ho
+  -- the state after the fault counter has been decremented
+  have key : ∀ (c : Bool) (x : Option Nat) (ys : List τ) (v : τ), ys[a.vid]? = some v → o.rets.length ≤ ys.length →
+      (∀ sem, o.kind = .op sem → sem.fwd xs = some ys) →
+      ∀ sA : State τ, sA.ops = s1.ops → sA.params = s1.params → sA.sample = s1.sample →
+        sA.log = s1.log ++ [a.oid] → sA.rndPos = s1.rndPos + (if o.kind.isRnd then 1 else 0) →
+      Ext s1 (sA.storeValues a.oid ys) [a.oid] ∧ (sA.storeValues a.oid ys).valueOf? a = some v ∧
+        (sA.storeValues a.oid ys).evaluated a.oid := by
+    intro c x ys v hv hlen hsem sA h1 h2 h3 h4 h5
+    have hoA : sA.ops[a.oid]? = some o := by rw [h1]; exact ho
+    exact ⟨Ext.step ho h1 h2 h3 h4 h5 hnp hne hbefore hlen hargs ⟨xs, hxs, hsem⟩,
+      valueOf?_storeValues hoA hnp hn hv, evaluated_storeValues hoA hn hv⟩
+  cases hk : o.kind with
+  | param p => simp [hk, Kind.isParam] at hnp
+  | rnd =>
+    rw [hk] at kok key
+    simp only [KindOK] at kok
+    have hvid : a.vid = 0 := by
+      have := (List.getElem?_eq_some_iff.1 hn).1; omega
+    unfold evalSelf
+    simp only [if_true]
+    cases hf : s1.failIn with
+    | none =>
+      obtain ⟨e1, e2, e3⟩ := key true none [s1.sample s1.rndPos n.size] (s1.sample s1.rndPos n.size)
+        (by simp [hvid]) (by simp [kok]) (by intro sem h; cases h)
+        { s1 with failIn := none, rndPos := s1.rndPos + 1, log := s1.log ++ [a.oid] } rfl rfl rfl rfl rfl
+      refine ⟨[a.oid], by simp, e1, by simp, ?_⟩
+      intro v hv; simp only [Except.ok.injEq] at hv; subst hv
+      exact ⟨e2, e3⟩
+    | some m =>
+      cases m with
+      | zero =>
+        exact ⟨[], by simp, Ext.refl' rfl rfl rfl rfl rfl, by simp, by simp⟩
+      | succ m =>
+        obtain ⟨e1, e2, e3⟩ := key true none [s1.sample s1.rndPos n.size] (s1.sample s1.rndPos n.size)
+          (by simp [hvid]) (by simp [kok]) (by intro sem h; cases h)
+          { s1 with failIn := some m, rndPos := s1.rndPos + 1, log := s1.log ++ [a.oid] } rfl rfl rfl rfl rfl
+        refine ⟨[a.oid], by simp, e1, by simp, ?_⟩
+        intro v hv; simp only [Except.ok.injEq] at hv; subst hv
+        exact ⟨e2, e3⟩
+  | op sem =>
+    rw [hk] at kok key
+    simp only [KindOK] at kok
+    -- after the fault schedule has been consulted
+    have tail : ∀ sB : State τ, sB.ops = s1.ops → sB.params = s1.params → sB.sample = s1.sample →
+        sB.log = s1.log → sB.rndPos = s1.rndPos →
+        ∀ res : State τ × Except Err τ,
+        res = (match sem.fwd xs with
+          | none => (sB, .error .error)
+          | some ys =>
+            match ys[a.vid]? with
+            | some v => (({ sB with log := sB.log ++ [a.oid] }).storeValues a.oid ys, .ok v)
+            | none => (({ sB with log := sB.log ++ [a.oid] }).storeValues a.oid ys, .error .crash)) →
+        ∃ l, (∀ k ∈ l, k = a.oid) ∧ Ext s1 res.1 l ∧ res.2 ≠ .error .crash ∧
+          ∀ v, res.2 = .ok v → res.1.valueOf? a = some v ∧ res.1.evaluated a.oid := by
+      intro sB h1 h2 h3 h4 h5 res hres
+      cases hfw : sem.fwd xs with
+      | none =>
+        rw [hfw] at hres; subst hres
+        exact ⟨[], by simp, Ext.refl' h1 h2 h3 h4 h5, by simp, by simp⟩
+      | some ys =>
+        rw [hfw] at hres
+        have hlen := kok xs ys hfw
+        have hvid : a.vid < ys.length := Nat.lt_of_lt_of_le (List.getElem?_eq_some_iff.1 hn).1 hlen
+        simp only [List.getElem?_eq_getElem hvid] at hres
+        subst hres
+        obtain ⟨e1, e2, e3⟩ := key true none ys ys[a.vid] (List.getElem?_eq_getElem hvid) hlen
+          (by intro sem' h; cases h; exact hfw)
+          { sB with log := sB.log ++ [a.oid] } h1 h2 h3 (by simp [h4]) (by simp [h5, Kind.isRnd])
+        refine ⟨[a.oid], by simp, e1, by simp, ?_⟩
+        intro v hv; simp only [Except.ok.injEq] at hv; subst hv
+        exact ⟨e2, e3⟩
+    unfold evalSelf
+    cases hfa : sem.faulty with
+    | false =>
+      simp only [hfa, Bool.false_eq_true, if_false]
+      exact tail s1 rfl rfl rfl rfl rfl _ rfl
+    | true =>
+      simp only [hfa, if_true]
+      cases hf : s1.failIn with
+      | none => exact tail { s1 with failIn := none } rfl rfl rfl rfl rfl _ rfl
+      | some m =>
+        cases m with
+        | zero => exact ⟨[], by simp, Ext.refl' rfl rfl rfl rfl rfl, by simp, by simp⟩
+        | succ m => exact tail { s1 with failIn := some m } rfl rfl rfl rfl rfl _ rfl
+
+theorem Anc.refl (s : State τ) (k : Nat) : Anc s k k := AncF.refl k
+
+theorem Anc.of_arg {s : State τ} {k j : Nat} {o : OpInfo τ} {b : Addr} (ho : s.ops[k]? = some o)
+    (hb : b ∈ o.args) (h : Anc s j b.oid) : Anc s j k := by
+  refine AncF.step (b := b) ?_ h
+  simp [State.argsOf, ho, hb]
+
+/-- an ancestor of `k` is `k` itself or an ancestor of one of its arguments -/
+theorem Anc.cases {s : State τ} {k j : Nat} (h : Anc s j k) :
+    j = k ∨ ∃ o b, s.ops[k]? = some o ∧ b ∈ o.args ∧ Anc s j b.oid := by
+  cases h with
+  | refl => exact .inl rfl
+  | step hb h =>
+    rename_i b
+    right
+    unfold State.argsOf at hb
+    cases ho : s.ops[k]? with
+    | none => simp [ho] at hb
+    | some o => simp only [ho] at hb; exact ⟨o, b, rfl, hb, h⟩
+
+theorem evaluated_of_node {s : State τ} {a : Addr} {o : OpInfo τ} {n : NodeInfo τ} {v : τ}
+    (ho : s.ops[a.oid]? = some o) (hn : o.rets[a.vid]? = some n) (hv : n.value = some v) :
+    s.evaluated a.oid := ⟨o, ho, n, List.mem_of_getElem? hn, by simp [hv]⟩
+
+theorem WF.closed_anc {s : State τ} (w : WF s) {j k : Nat} (h : Anc s j k) (hev : s.evaluated k)
+    (hp : s.isParam j = false) : s.evaluated j := by
+  induction h with
+  | refl => exact hev
+  | step hb h ih =>
+    rename_i k b
+    unfold State.argsOf at hb
+    cases ho : s.ops[k]? with
+    | none => simp [ho] at hb
+    | some o =>
+      simp only [ho] at hb
+      by_cases hpb : s.isParam b.oid = true
+      · -- a parameter has no arguments: `j` is that parameter
+        rcases Anc.cases h with rfl | ⟨o', b', ho', hb', _⟩
+        · rw [hpb] at hp; cases hp
+        · have := w.kind_ok _ o' ho'
+          simp only [State.isParam, ho'] at hpb
+          cases hk : o'.kind with
+          | param p => rw [hk] at this; simp only [KindOK] at this; simp [this.1] at hb'
+          | rnd => simp [hk, Kind.isParam] at hpb
+          | op sem => simp [hk, Kind.isParam] at hpb
+      · exact ih (w.closed k o ho hev b hb (by simpa using hpb))
+
+theorem WF.anc_le {s : State τ} (w : WF s) {j k : Nat} (h : Anc s j k) : j ≤ k := by
+  induction h with
+  | refl => exact Nat.le_refl _
+  | step hb h ih =>
+    rename_i k b
+    unfold State.argsOf at hb
+    cases ho : s.ops[k]? with
+    | none => simp [ho] at hb
+    | some o =>
+      simp only [ho] at hb
+      have := (w.args_lt k o ho b hb).1
+      omega
+
+theorem forwardRec_succ_nonparam (T : TOps τ) (fuel : Nat) {s : State τ} {a : Addr} {o : OpInfo τ}
+    (ho : s.ops[a.oid]? = some o) (hnp : o.kind.isParam = false) :
+    forwardRec T (fuel + 1) s a =
+      match o.rets[a.vid]? with
+      | none => (s, .error .crash)
+      | some n =>
+        match n.value with
+        | some v => (s, .ok v)
+        | none =>
+          match forwardArgsWith (forwardRec T fuel) s o.args with
+          | (s1, .error e) => (s1, .error e)
+          | (s1, .ok xs) => evalSelf o.kind n a s1 xs := by
+  rw [forwardRec_succ]
+  simp only [ho]
+  cases hk : o.kind with
+  | param p => simp [hk, Kind.isParam] at hnp
+  | rnd => rfl
+  | op sem => rfl
+
+theorem forwardRec_spec (T : TOps τ) (fuel : Nat) :
+    ∀ (s : State τ) (a : Addr), WF s → s.validAddr a = true → a.oid < fuel →
+      FwdSpec s a (forwardRec T fuel s a) := by
+  induction fuel with
+  | zero => intro s a _ _ h; omega
+  | succ fuel ih =>
+    intro s a w hv hlt
+    obtain ⟨o, ho, hvid⟩ := validAddr_iff.1 hv
+    obtain ⟨n, hn⟩ : ∃ n, o.rets[a.vid]? = some n := ⟨_, List.getElem?_eq_getElem hvid⟩
+    have kok := w.kind_ok _ o ho
+    have hself : s.isParam a.oid = o.kind.isParam := by simp [State.isParam, ho]
+    -- the two immediate returns
+    have immediate : ∀ v, s.valueOf? a = some v → (o.kind.isParam = false → s.evaluated a.oid) →
+        FwdSpec s a (s, .ok v) := by
+      intro v hval hev
+      refine ⟨⟨[], Ext.refl s, by simp⟩, by simp, ?_⟩
+      intro v' hv'
+      simp only [Except.ok.injEq] at hv'; subst hv'
+      refine ⟨hval, ?_⟩
+      intro b hb k hk hp
+      simp only [List.mem_singleton] at hb; subst hb
+      by_cases hpa : o.kind.isParam = true
+      · rcases hk.cases with rfl | ⟨o', b', ho', hb', hk'⟩
+        · rw [hself, hpa] at hp; cases hp
+        · rw [ho] at ho'; cases ho'
+          cases hkind : o.kind with
+          | param p => rw [hkind] at kok; simp only [KindOK] at kok; simp [kok.1] at hb'
+          | rnd => simp [hkind, Kind.isParam] at hpa
+          | op sem => simp [hkind, Kind.isParam] at hpa
+      · exact w.closed_anc hk (hev (by simpa using hpa)) hp
+    by_cases hnp : o.kind.isParam = true
+    · cases hk : o.kind with
+      | rnd => simp [hk, Kind.isParam] at hnp
+      | op sem => simp [hk, Kind.isParam] at hnp
+      | param p =>
+        rw [hk] at kok; simp only [KindOK] at kok
+        have h0 : a.vid = 0 := by omega
+        rw [forwardRec_succ]
+        simp only [ho, hk, h0, if_true]
+        apply immediate
+        · simp [State.valueOf?, ho, hk, h0]
+        · simp [hk, Kind.isParam]
+    · have hnp : o.kind.isParam = false := by simpa using hnp
+      rw [forwardRec_succ_nonparam T fuel ho hnp]
+      simp only [hn]
+      cases hval : n.value with
+      | some v =>
+        simp only
+        apply immediate
+        · unfold State.valueOf?
+          cases hk : o.kind with
+          | param p => simp [hk, Kind.isParam] at hnp
+          | rnd => simp [ho, hk, hn, hval]
+          | op sem => simp [ho, hk, hn, hval]
+        · intro _; exact evaluated_of_node ho hn hval
+      | none =>
+        simp only
+        have hargs := w.args_lt _ o ho
+        have sp := forwardArgs_spec (forwardRec T fuel) fuel ih s o.args w
+          (fun b hb => ⟨(hargs b hb).2, by have := (hargs b hb).1; omega⟩)
+        cases h1 : forwardArgsWith (forwardRec T fuel) s o.args with
+        | mk s1 r1 =>
+          rw [h1] at sp
+          obtain ⟨⟨l1, p1⟩, nc1, ok1⟩ := sp
+          simp only at p1 nc1 ok1
+          have anc1 : ∀ k ∈ l1, ∃ b ∈ [a], Anc s k b.oid := by
+            intro k hk
+            obtain ⟨b, hb, hkb⟩ := p1.anc k hk
+            exact ⟨a, List.mem_singleton_self a, Anc.of_arg ho hb hkb⟩
+          cases r1 with
+          | error e =>
+            exact ⟨⟨l1, p1.ext, anc1⟩, (by intro h; injection h with h; subst h; exact nc1 rfl), by simp⟩
+          | ok xs =>
+            obtain ⟨hxs, hd1⟩ := ok1 xs rfl
+            have w1 := p1.ext.wf w
+            have ho1 : s1.ops[a.oid]? = some o := by
+              rw [p1.ext.same]; exact ho
+              intro hmem
+              obtain ⟨b, hb, hkb⟩ := p1.anc _ hmem
+              have := w.anc_le hkb
+              have := (hargs b hb).1
+              omega
+            obtain ⟨l2, hl2, e2, nc2, ok2⟩ := evalSelf_spec w1 ho1 hn hval hnp hxs
+            simp only
+            refine ⟨⟨l1 ++ l2, p1.ext.trans e2, ?_⟩, nc2, ?_⟩
+            · intro k hk
+              rcases List.mem_append.1 hk with hk | hk
+              · exact anc1 k hk
+              · exact ⟨a, List.mem_singleton_self a, hl2 k hk ▸ Anc.refl s a.oid⟩
+            · intro v hv
+              obtain ⟨hv1, hev⟩ := ok2 v hv
+              refine ⟨hv1, ?_⟩
+              intro b hb k hk hp
+              simp only [List.mem_singleton] at hb; subst hb
+              rcases hk.cases with rfl | ⟨o', b', ho', hb', hk'⟩
+              · exact hev
+              · rw [ho] at ho'; cases ho'
+                exact (e2.evaluated k).2 (.inl (hd1 b' hb' k hk' hp))
 
 end Primitiv.Graph
